@@ -4,14 +4,13 @@ use crate::support::*;
 use educe::Educe;
 use core::cmp::Ordering;
 #[derive(Educe)]
-#[repr(i64)]
-#[educe(Eq, PartialEq, Ord)]
-pub enum T { Some(#[educe(Ord(rank = "-1"))] ::core::num::NonZeroU8, u8, #[educe(Ord(rank(1)))] u8) = 127, C { #[educe(Ord(rank = 0x3))] c: i64 } = 0, Unit(#[educe(Ord(rank = 6i64))] u8, #[educe(Ord(rank = 0x2))] Option<u8>) = 70000, V1 = 100 }
-impl PartialOrd for T { fn partial_cmp(&self, o: &Self) -> Option<Ordering> { Some(::core::cmp::Ord::cmp(self, o)) } }
-pub fn values() -> Vec<T> { vec![T::Some(::core::num::NonZeroU8::new(1).unwrap(), 100, 200), T::Some(::core::num::NonZeroU8::new(200).unwrap(), 100, 200), T::Some(::core::num::NonZeroU8::new(1).unwrap(), 200, 0), T::Some(::core::num::NonZeroU8::new(200).unwrap(), 100, 100), T::Some(::core::num::NonZeroU8::new(1).unwrap(), 200, 100), T::Some(::core::num::NonZeroU8::new(200).unwrap(), 0, 200), T::Some(::core::num::NonZeroU8::new(200).unwrap(), 0, 0), T::Some(::core::num::NonZeroU8::new(200).unwrap(), 200, 200), T::Some(::core::num::NonZeroU8::new(200).unwrap(), 100, 0), T::C { c: -5 }, T::C { c: 0 }, T::C { c: 9 }, T::Unit(0, None), T::Unit(0, Some(0)), T::Unit(0, Some(255)), T::Unit(100, None), T::Unit(100, Some(0)), T::Unit(100, Some(255)), T::Unit(200, None), T::Unit(200, Some(0)), T::Unit(200, Some(255)), T::V1] }
-pub fn show(x: &T) -> String { #[allow(unused_variables)] match x { T::Some(p0, p1, p2) => format!("Some({},{},{})", sv(p0), sv(p1), sv(p2)), T::C { c: p0 } => format!("C({})", sv(p0)), T::Unit(p0, p1) => format!("Unit({},{})", sv(p0), sv(p1)), T::V1 => format!("V1()") } }
-pub fn o_disc(x: &T) -> i128 { match x { T::Some(_, _, _) => 127, T::C { c: _ } => 0, T::Unit(_, _) => 70000, T::V1 => 100 } }
-pub fn o_cmp(a: &T, b: &T) -> Ordering { match (a, b) { (T::Some(a0, a1, a2), T::Some(b0, b1, b2)) => { let c = ::core::cmp::Ord::cmp(a1, b1); if c != Ordering::Equal { return c; } let c = ::core::cmp::Ord::cmp(a0, b0); if c != Ordering::Equal { return c; } let c = ::core::cmp::Ord::cmp(a2, b2); if c != Ordering::Equal { return c; } Ordering::Equal }, (T::C { c: a0 }, T::C { c: b0 }) => { let c = ::core::cmp::Ord::cmp(a0, b0); if c != Ordering::Equal { return c; } Ordering::Equal }, (T::Unit(a0, a1), T::Unit(b0, b1)) => { let c = ::core::cmp::Ord::cmp(a1, b1); if c != Ordering::Equal { return c; } let c = ::core::cmp::Ord::cmp(a0, b0); if c != Ordering::Equal { return c; } Ordering::Equal }, (T::V1, T::V1) => {  Ordering::Equal }, _ => o_disc(a).cmp(&o_disc(b)) } }
+#[educe(PartialEq, Ord, Eq, PartialOrd)]
+pub enum T { B(#[educe(Ord(rank = 8))] i64, char), Unit, A((), (), #[educe(Ord(rank = 7))] Option<u8>), None { r#type: i64, other: bool } }
+
+pub fn values() -> Vec<T> { vec![T::B(-5, 'a'), T::B(-5, 'z'), T::B(0, 'a'), T::B(0, 'z'), T::B(9, 'a'), T::B(9, 'z'), T::Unit, T::A((), (), None), T::A((), (), Some(0)), T::A((), (), Some(255)), T::None { r#type: -5, other: false }, T::None { r#type: -5, other: true }, T::None { r#type: 0, other: false }, T::None { r#type: 0, other: true }, T::None { r#type: 9, other: false }, T::None { r#type: 9, other: true }] }
+pub fn show(x: &T) -> String { #[allow(unused_variables)] match x { T::B(p0, p1) => format!("B({},{})", sv(p0), sv(p1)), T::Unit => format!("Unit()"), T::A(p0, p1, p2) => format!("A({},{},{})", sv(p0), sv(p1), sv(p2)), T::None { r#type: p0, other: p1 } => format!("None({},{})", sv(p0), sv(p1)) } }
+pub fn o_disc(x: &T) -> i128 { match x { T::B(_, _) => 0, T::Unit => 1, T::A(_, _, _) => 2, T::None { r#type: _, other: _ } => 3 } }
+pub fn o_cmp(a: &T, b: &T) -> Ordering { match (a, b) { (T::B(a0, a1), T::B(b0, b1)) => { let c = ::core::cmp::Ord::cmp(a1, b1); if c != Ordering::Equal { return c; } let c = ::core::cmp::Ord::cmp(a0, b0); if c != Ordering::Equal { return c; } Ordering::Equal }, (T::Unit, T::Unit) => {  Ordering::Equal }, (T::A(a0, a1, a2), T::A(b0, b1, b2)) => { let c = ::core::cmp::Ord::cmp(a0, b0); if c != Ordering::Equal { return c; } let c = ::core::cmp::Ord::cmp(a1, b1); if c != Ordering::Equal { return c; } let c = ::core::cmp::Ord::cmp(a2, b2); if c != Ordering::Equal { return c; } Ordering::Equal }, (T::None { r#type: a0, other: a1 }, T::None { r#type: b0, other: b1 }) => { let c = ::core::cmp::Ord::cmp(a0, b0); if c != Ordering::Equal { return c; } let c = ::core::cmp::Ord::cmp(a1, b1); if c != Ordering::Equal { return c; } Ordering::Equal }, _ => o_disc(a).cmp(&o_disc(b)) } }
 #[repr(C)] pub struct Wrap { pub pre: u8, pub x: T, pub post: [u8; 9] }
 pub fn wrap(i: usize, n: u8) -> Wrap { Wrap { pre: n, x: values().swap_remove(i), post: [n; 9] } }
-pub fn run(out: &mut Out) { let vs = values(); for (i, a) in vs.iter().enumerate() { for (j, b) in vs.iter().enumerate() { let e = o_cmp(a, b); let g = ::core::cmp::Ord::cmp(a, b); out.check(g == e, "ordlayout_10", "cmp", || format!("cmp({}, {}) = {:?} expected {:?}", show(a), show(b), g, e)); for n in [0u8, 1, 0x7f, 0x80, 0xff] { let wa = wrap(i, n); let wb = wrap(j, !n); let g = ::core::cmp::Ord::cmp(&wa.x, &wb.x); let e = o_cmp(a, b); out.check(g == e, "ordlayout_10", "cmp_neighbours", || format!("cmp({}, {}) with neighbour bytes {} = {:?} expected {:?}", show(a), show(b), n, g, e)); } } } }
+pub fn run(out: &mut Out) { let vs = values(); for (i, a) in vs.iter().enumerate() { for (j, b) in vs.iter().enumerate() { let e = o_cmp(a, b); let g = ::core::cmp::Ord::cmp(a, b); out.check(g == e, "ordlayout_10", "cmp", || format!("cmp({}, {}) = {:?} expected {:?}", show(a), show(b), g, e)); let g2 = ::core::cmp::PartialOrd::partial_cmp(a, b); out.check(g2 == Some(e), "ordlayout_10", "partial_is_some_cmp", || format!("partial_cmp({}, {}) = {:?} expected Some({:?})", show(a), show(b), g2, e)); for n in [0u8, 1, 0x7f, 0x80, 0xff] { let wa = wrap(i, n); let wb = wrap(j, !n); let g = ::core::cmp::Ord::cmp(&wa.x, &wb.x); let e = o_cmp(a, b); out.check(g == e, "ordlayout_10", "cmp_neighbours", || format!("cmp({}, {}) with neighbour bytes {} = {:?} expected {:?}", show(a), show(b), n, g, e)); } } } }
